@@ -263,3 +263,52 @@ Example C08_priority_pool_empty_pipeline_refuted :
   snd (sim_run RunExamples.C1 APriorityPool 0%Z (init_sim RunExamples.C1 2 10%Z 10%Q) [[5]; []; []])
     = Some EBadAssignArgs.
 Proof. exact RunExamples.empty_pipeline_refuted. Qed.
+
+(* ------------------------------------------------------------------------------------------ *)
+(* priority: the full closed loop (Proofs/PriorityMultiFacts.v)                                 *)
+(* ------------------------------------------------------------------------------------------ *)
+From Eudoxia Require Import Proofs.PriorityMultiFacts.
+
+(* priority with multi-operator containers: with preemption, suspension, release, re-queueing, OOM kills and
+   doubled retries in play, the closed loop never raises *)
+Theorem C08_priority_multi_runs_to_end : forall C l np cpu ram arrivals,
+  cf_static C = mk_static l -> dags_wf l ->
+  (forall op c, cf_script C op c <> []) -> cf_multi C = true ->
+  (0 <= cpu)%Z -> (0 <= ram)%Q -> NoDup (concat arrivals) ->
+  exists sf logs,
+    sim_run C APriority 0%Z (init_sim C np cpu ram) arrivals = (sf, logs, None) /\
+    length logs = length arrivals.
+Proof. exact priority_multi_runs_to_end. Qed.
+Print Assumptions C08_priority_multi_runs_to_end.
+
+(* priority, either container mode: every workload of well-formed DAG pipelines with fresh ids, every pool
+   count and non-negative size, every tick rate, every non-empty timing script: the run reaches its last tick *)
+Theorem C08_priority_runs_to_end : forall C l np cpu ram arrivals,
+  cf_static C = mk_static l -> dags_wf l ->
+  (forall op c, cf_script C op c <> []) ->
+  (0 <= cpu)%Z -> (0 <= ram)%Q -> NoDup (concat arrivals) ->
+  exists sf logs,
+    sim_run C APriority 0%Z (init_sim C np cpu ram) arrivals = (sf, logs, None) /\
+    length logs = length arrivals.
+Proof. exact priority_runs_to_end. Qed.
+Print Assumptions C08_priority_runs_to_end.
+
+(* non-vacuity: a multi-operator run in which a container is preempted, suspends for two ticks, is re-queued
+   and its remaining operator runs again; and the theorem applied to that configuration *)
+Example C08_priority_multi_witness :
+  MultiExamples.show2 (sim_run (RunExamples.exC true) APriority 0%Z (init_sim (RunExamples.exC true) 1 2%Z 40%Q)
+                               [[0; 1]; []; [2]; []; []; []; []; []; []; []]) =
+  ([([], [(Batch, [0; 1], 1%Z, 4%Q); (Batch, [2; 3], 1%Z, 36%Q)], []);
+    ([], [], []);
+    ([0], [], []);
+    ([], [], [(1, false)]);
+    ([], [(Query, [4], 1%Z, 4%Q); (Batch, [1], 1%Z, 36%Q)], []);
+    ([], [], [(2, false); (3, false)]);
+    ([], [], []); ([], [], []); ([], [], []); ([], [], [])], None, 1%Z, [0]).
+Proof. exact MultiExamples.ex_preempt_two_ticks. Qed.
+
+Example C08_priority_multi_total_witness :
+  exists sf logs,
+    sim_run (RunExamples.exC true) APriority 0%Z (init_sim (RunExamples.exC true) 1 2%Z 40%Q)
+            [[0; 1]; []; [2]; []; []; []; []; []; []; []] = (sf, logs, None) /\ length logs = 10.
+Proof. exact MultiExamples.ex_multi_total. Qed.
